@@ -628,27 +628,48 @@ def _new_auxpredicate(model, extra):
 
 @mirror("make_unique")
 def _make_unique(model, extra):
+    """black-box: request sequences against the specification of freshness (independent of the representation of
+    the known-variable store)"""
+    import itertools
+
+    from clingo.ast import parse_string
+
     from ngo.utils.globals import UniqueVariables
 
     problems = []
-    for name in ("X", "AUX", "_"):
-        rule = A.Rule(LOC, A.Literal(LOC, A.Sign.NoSign, A.BooleanConstant(False)), [])
-        uv = UniqueVariables(rule)
-        uv._allvars = [A.Variable(LOC, "X"), A.Variable(LOC, "AUX"), A.Variable(LOC, "AUX0"), A.Variable(LOC, "X0"), A.Variable(LOC, "X1")]  # pylint: disable=protected-access
-        before = list(uv._allvars)  # pylint: disable=protected-access
-        r1 = uv.make_unique(A.Variable(LOC, name))
-        r2 = uv.make_unique(A.Variable(LOC, name))
-        if name == "_":
-            if r1.name != "_" or uv._allvars != before:  # pylint: disable=protected-access
-                problems.append("anonymous variable changed / recorded")
-            continue
-        if r1 in before or r2 in before or r1 == r2:
-            problems.append(f"{name}: results {r1}, {r2} clash with known variables {list(map(str, before))}")
-        if uv._allvars != before + [r1, r2]:  # pylint: disable=protected-access
-            problems.append(f"{name}: results not recorded in order")
-        if r1.ast_type != A.ASTType.Variable:
-            problems.append("result is not a Variable")
-    return {"confirmed": bool(problems), "problems": problems}
+    rules = ["a(X,AUX,AUX0,X0,X1) :- b(X,Y0).", "a(X) :- b(X,D,D1).", ":~ a(X,AUX). [X@1,AUX]"]
+    names = ["X", "X0", "AUX", "AUX0", "Y", "Y0", "D", "D0", "_"]
+    for text in rules:
+        stms = []
+        parse_string(text, stms.append)
+        rule = stms[-1]
+        base = {str(v) for v in _collect_vars(rule)}
+        for seq in itertools.product(names, repeat=3):
+            uv = UniqueVariables(rule)
+            known = set(base)
+            for nm in seq:
+                r = uv.make_unique(A.Variable(LOC, nm))
+                if nm == "_":
+                    if r.name != "_":
+                        problems.append(f"{text} {seq}: `_` changed to {r}")
+                    continue
+                if r.ast_type != A.ASTType.Variable:
+                    problems.append(f"{text} {seq}: result {r} is not a variable")
+                elif nm not in known:
+                    if r.name != nm:
+                        problems.append(f"{text} {seq}: unknown name {nm} was renamed to {r}")
+                elif r.name in known:
+                    problems.append(f"{text} {seq}: request {nm} returned {r}, which is already in use ({sorted(known)})")
+                known.add(r.name)
+                if problems:
+                    return {"confirmed": True, "bounded": True, "problems": problems[:3]}
+    return {"confirmed": False, "bounded": True, "bound": f"{len(rules)} rules x all request sequences of length 3 over {names}"}
+
+
+def _collect_vars(stm):
+    from ngo.utils.ast import collect_ast
+
+    return collect_ast(stm, "Variable")
 
 
 # ---------------------------------------------------------------------------------------------
@@ -894,3 +915,63 @@ def _optimize_gating_bounded(model, extra):
         if r.get("confirmed"):
             return dict(r, bounded=True)
     return {"confirmed": False, "bounded": True, "bound": f"all {n} flag combinations, two rounds"}
+
+
+# ---------------------------------------------------------------------------------------------
+# C05 normal-form helpers
+@mirror("count_to_sum")
+def _count_to_sum(model, extra):
+    from ngo.normalize import _convert_count_to_sum
+
+    agg = build(model["agg"])
+    new = _convert_count_to_sum(agg)
+    problems = []
+    if new.function != A.AggregateFunction.SumPlus:
+        problems.append("function is not #sum+")
+    if new.left_guard != agg.left_guard or new.right_guard != agg.right_guard:
+        problems.append("guards changed")
+    if len(new.elements) != len(agg.elements):
+        problems.append("number of elements changed")
+    else:
+        for o, n in zip(agg.elements, new.elements):
+            if list(n.condition) != list(o.condition):
+                problems.append(f"condition changed: {o} -> {n}")
+            if len(n.terms) != len(o.terms) + 1 or str(n.terms[0]) != "1" or list(n.terms)[1:] != list(o.terms):
+                problems.append(f"tuple is not 1 followed by the old tuple: {o} -> {n}")
+    return {"confirmed": bool(problems), "old": str(agg), "new": str(new), "problems": problems[:3]}
+
+
+@mirror("equality")
+def _equality(model, extra):
+    import itertools
+
+    from ngo.normalize import _equality as eq
+    from ngo.utils.ast import collect_ast
+
+    lit = build(model["lit"])
+    r = eq(lit)
+    if r is None:
+        return {"confirmed": False, "result": None}
+    var, rest = r
+    problems = []
+    if var.ast_type != A.ASTType.Variable or var.name == "_":
+        problems.append("first component is not a named variable")
+    if not (lit.ast_type == A.ASTType.Literal and lit.atom.ast_type == A.ASTType.Comparison and len(lit.atom.guards) == 1):
+        problems.append("literal is not a binary comparison")
+    else:
+        g = lit.atom.guards[0]
+        if {str(var), str(rest)} != {str(lit.atom.term), str(g.term)}:
+            problems.append("components are not the two sides of the comparison")
+        if collect_ast(lit, "Pool") or collect_ast(lit, "Interval"):
+            problems.append("pool / interval inside an inlined equality")
+        names = sorted({str(lit.atom.term), str(g.term)})
+        vals = [clingo.Number(1), clingo.Number(2), clingo.Function("a", [])]
+        for vs in itertools.product(vals, repeat=len(names)):
+            asg = dict(zip(names, vs))
+            holds = sym_cmp(A.ComparisonOperator(g.comparison), asg[str(lit.atom.term)], asg[str(g.term)])
+            if lit.sign == A.Sign.Negation:
+                holds = not holds
+            if holds != (asg[str(var)] == asg[str(rest)]):
+                problems.append(f"{lit} does not mean {var} = {rest} (assignment {dict((k, str(v)) for k, v in asg.items())})")
+                break
+    return {"confirmed": bool(problems), "literal": str(lit), "result": [str(var), str(rest)], "problems": problems[:3]}
